@@ -147,7 +147,7 @@ class Harness:
             args = (mpath,)
         else:
             target = T.TARGETS[case['ending']]
-            args = (mpath, case.get('loop', 2))
+            args = (mpath, 99 if case.get('us_none') else case.get('loop', 2))
         st = None
         if kind == 'thread':
             st = vfagent.install(plan)
@@ -164,9 +164,15 @@ class Harness:
         if pers:
             for k in range(1, items + 1):
                 try:
-                    w.enqueue(k=k)
+                    if k == 1:
+                        w.enqueue(k=k, bump=1000)     # calls of differing shape: defaults must be pristine for every call
+                    else:
+                        w.enqueue(k=k)
                 except Exception as e:  # noqa
                     enq_raised = 'raised:' + type(e).__name__
+        consumer = None
+        if pers and case.get('consumer') == 'blocked':
+            consumer = _Consumer(w, items)       # a consumer already blocked in next_result() when the fault happens
         fault = case.get('fault', 'none')
         report = None
         term_ret = 'na'
@@ -202,7 +208,10 @@ class Harness:
         if report is not None and report.get('type') == 'paused':
             us_alive = _us(w, case)
             try:
-                r = w.terminate(timeout=case.get('term_timeout', 3))
+                tkw = {'timeout': case.get('term_timeout', 3)}
+                if case.get('remote_timeout') and kind == 'remote':
+                    tkw['remote_timeout'] = case['remote_timeout']
+                r = w.terminate(**tkw)
                 term_ret = 'T' if r is True else 'F' if r is False else 'other'
             except BaseException as e:  # noqa
                 term_ret = 'raised:' + type(e).__name__
@@ -210,10 +219,18 @@ class Harness:
                 st.go.set()
         # let it end
         dead = False
+        polled = case.get('observe') == 'poll'
         try:
             if pers and fault == 'none' and not closed_early:
                 w.close()
-            dead = bool(w.wait(timeout=case.get('wait_timeout', 10)))
+            if polled:
+                # a caller polling with short waits and is_alive(): "dead" is whatever the API says first
+                t1 = time.time()
+                while time.time() - t1 < 12 and not dead:
+                    if w.wait(timeout=0.05) is True or w.is_alive() is False:
+                        dead = True
+            else:
+                dead = bool(w.wait(timeout=case.get('wait_timeout', 10)))
         except BaseException as e:  # noqa
             obs['wait_raised'] = type(e).__name__
         if st is not None:
@@ -228,6 +245,8 @@ class Harness:
         if dead:
             for i in range(3):
                 reads.append(_read(w, case, WorkerTerminatedError))
+                if polled and i == 0:
+                    time.sleep(2.5)
                 try:
                     if i == 0:
                         w.wait(0)
@@ -247,7 +266,10 @@ class Harness:
         obs['fin_enter'] = 'T' if 'fin_enter' in marks else 'F'
         obs['us_end'] = _us_end(w, marks, case)
         obs['setter'] = _setter(w)
-        obs['stream'] = _stream(w, items) if pers else {'got': [], 'end': 'na', 'again': 'na'}
+        if consumer is not None:
+            obs['stream'] = consumer.finish(w)
+        else:
+            obs['stream'] = _stream(w, items) if pers else {'got': [], 'end': 'na', 'again': 'na'}
         if kind == 'thread':
             vfagent.uninstall()
         ev = _events(cdir)
@@ -346,6 +368,8 @@ def _tag_value(v):
         return 'None', 0
     if isinstance(v, tuple) and len(v) == 2 and v[0] == 'own':
         return 'own', 0
+    if type(v).__name__ in ('BadState', 'Slow') and type(v).__module__ == 'vf.targets':
+        return 'own', 0
     if isinstance(v, (bytes, bytearray)) and len(v) == 3 * 1024 * 1024 and v[:1] == b'x':
         return 'own', 0
     if isinstance(v, int) and not isinstance(v, bool) and 0 <= v < 10 ** 6:
@@ -361,7 +385,7 @@ def _tag_error(e, WTE):
         return 'WTE'
     if type(e) is ValueError and e.args[:1] == ('own',):
         return 'own'
-    if isinstance(e, (T.OwnBase, T.NeedArgs)):
+    if isinstance(e, (T.OwnBase, T.NeedArgs, T.QuotaError)):
         return 'own'
     return 'other'
 
@@ -418,6 +442,10 @@ def _us_end(w, marks, case):
     if not us:
         return 'last' if v == init else 'other'
     kind_, k = us[-1].split()
+    if k == 'none':
+        prev = [int(m.split()[1]) for m in us[:-1] if m.split()[1] != 'none']
+        allowed = {None} if kind_ == 'us_post' else {None, prev[-1] if prev else init}
+        return 'last' if v in allowed else ('init' if v == init else 'stale')
     k = int(k)
     allowed = {k} if kind_ == 'us_post' else {k, k - 1 if k - 1 > init else init}
     if v in allowed:
@@ -437,6 +465,50 @@ def _setter(w):
     return 'accepted'
 
 
+def _item_of(v, pos):
+    """which item a delivered value is the result of (0 = none / foreign / not in its place)"""
+    from vf import targets as T
+    if not (isinstance(v, tuple) and len(v) == 2 and v[0] == 'own' and isinstance(v[1], int)):
+        return 0
+    if v[1] == T.expected_value(pos):
+        return pos
+    for k in range(1, 12):
+        if T.expected_value(k) == v[1]:
+            return k
+    return 0
+
+
+class _Consumer:
+    def __init__(self, w, items):
+        self.got, self.end, self.items = [], None, items
+
+        def drain():
+            try:
+                for v in w.results_iter():
+                    self.got.append(_item_of(v, len(self.got) + 1))
+                    if len(self.got) > items + 5:
+                        break
+                self.end = 'ended'
+            except BaseException as e:  # noqa
+                self.end = 'raised'
+        self.t = threading.Thread(target=drain, daemon=True)
+        self.t.start()
+
+    def finish(self, w):
+        self.t.join(5)
+        if self.t.is_alive():
+            return {'got': list(self.got), 'end': 'blocked', 'again': 'na'}
+        again = 'na'
+        try:
+            w.next_result(block=False)
+            again = 'value'
+        except queue.Empty:
+            again = 'Empty'
+        except BaseException:  # noqa
+            again = 'raised'
+        return {'got': list(self.got), 'end': self.end, 'again': again}
+
+
 def _stream(w, items):
     """drain the result stream after death with a hang bound: list of item numbers, then how it ended"""
     box = {}
@@ -445,12 +517,12 @@ def _stream(w, items):
         got = []
         try:
             for v in w.results_iter():
-                got.append(v[1] if isinstance(v, tuple) and len(v) == 2 and v[0] == 'own' and isinstance(v[1], int) else 0)
+                got.append(_item_of(v, len(got) + 1))
                 if len(got) > items + 5:
                     break
             box['end'] = 'ended'
         except BaseException as e:  # noqa
-            box['end'] = 'raised:' + type(e).__name__
+            box['end'] = 'raised'
         box['got'] = got
     t = threading.Thread(target=drain, daemon=True)
     t.start()
@@ -464,7 +536,7 @@ def _stream(w, items):
     except queue.Empty:
         again = 'Empty'
     except BaseException as e:  # noqa
-        again = 'raised:' + type(e).__name__
+        again = 'raised'
     return {'got': box['got'], 'end': box['end'], 'again': again}
 
 
@@ -481,7 +553,8 @@ def _scn(case, where, marks=(), ev=None):
          'landed': 'F', 'in_target': 'F', 'file': 'none', 'func': 'none', 'line': 0,
          'target_started': 'T' if any(m == 'start' or m.endswith(' start') for m in marks) else 'F',
          'target_finished': 'T' if any(m in ('ret', 'raise') for m in marks) else 'F',
-         'in_finally': 'F', 'in_try': 'F', 'in_work': 'F', 'region': 'none', 'has_finally': 'T' if (not case.get('persistent') and case.get('ending') in ('ret', 'exc')) else 'F'}
+         'in_finally': 'F', 'in_try': 'F', 'in_work': 'F', 'region': 'none', 'has_finally': 'T' if (not case.get('persistent') and case.get('ending') in ('ret', 'exc', 'slowfin')) else 'F'}
+    s['ending'] = {'slow': 'ret', 'slowfin': 'ret', 'unreb2': 'unreb'}.get(s['ending'], s['ending'])
     if where:
         s['landed'] = 'T'
         s['file'], s['func'], s['line'] = where.get('file', 'none'), where.get('func', 'none'), where.get('line', 0)
